@@ -122,7 +122,7 @@ pub fn run(ctx: &Ctx) -> Report {
     let scratch = Scratch::new("c05");
     let root = scratch.path.clone();
     let opts = RunOpts::default();
-    let sets = ctx.share(ctx.scale(480, 8000)) as u32;
+    let sets = ctx.share(ctx.scale(480, 24000)) as u32;
     let rep_cell = std::cell::RefCell::new(&mut rep);
     let failing: std::cell::RefCell<Option<(ConcCase, String, String)>> = std::cell::RefCell::new(None);
     let found = prop_search(ctx, 5, sets, 40, &gen(true, vec![0, 1, 2, 3], vec![1, 2, 3], 2), |g, exploring| {
